@@ -753,6 +753,13 @@ func checkC07(c *core.Ctx) error {
 		c.Report(k, fmt.Sprintf("%d sampled histories reduce to this one; e.g. %s (exit=%d) %s", a.n, r.rc.String(), r.exitR, r.note),
 			map[string]interface{}{"history": r.rc, "v1_files": regenFiles(r.rc.V1, r.rc.SameLine), "v2_files": regenFiles(r.rc.V2, r.rc.SameLine)})
 	}
+	// (B) histories under -autoname / -dedup: the C11 universe (names that coincide with the helper names newName
+	// mints, structs whose fields need helpers), one call edited between two runs with the same flags
+	flagRuns, flagStates, err := c07Flagged(c, bin)
+	if err != nil {
+		return err
+	}
+	c.Set("flagged_histories", flagRuns)
 	// DRIFT: prediction of the implementation-shaped model
 	drift := 0
 	for _, r := range results {
@@ -773,8 +780,8 @@ func checkC07(c *core.Ctx) error {
 		r := results[(i*7919+int(c.Seed))%len(results)]
 		c.Sample(map[string]interface{}{"history": r.rc.String(), "same_as_scratch": r.same, "valid": r.valid})
 	}
-	c.Set("states", res.Distinct)
-	c.Set("transitions", res.Generated)
+	c.Set("states", res.Distinct+flagStates)
+	c.Set("transitions", res.Generated+flagStates)
 	c.Set("histories_exported_by_tlc", len(cases))
 	c.Set("traces_validated_against_impl", st.Traces)
 	c.Set("trace_events", st.Events)
@@ -785,4 +792,194 @@ func checkC07(c *core.Ctx) error {
 	c.Set("exhaustive", false)
 	c.Assume("truncation offsets: quick samples 3 per class (first, last, random); thorough enumerates every byte offset of the class")
 	return nil
+}
+
+// c07Flagged: v1 -> v2 histories over GoderiveMC's packages, both runs with v2's flags; the result of the second
+// run (derived.gen.go AND the possibly rewritten user files, exit status) must equal a scratch run of v2.
+func c07Flagged(c *core.Ctx, bin string) (int, int, error) {
+	maxCalls, nPairs := 2, 1200
+	if !c.Quick() {
+		maxCalls, nPairs = 3, 4000
+	}
+	ms, res, err := runMC(c, "c07flags", maxCalls, false)
+	if err != nil {
+		return 0, 0, err
+	}
+	rng := core.NewRand(c.Seed + 77)
+	type pair struct{ v1, v2 mcScenario }
+	var pairs []pair
+	sfx := []string{"", "_", "A"}
+	keys := []string{"K1", "K2", "K3"}
+	for _, m := range ms {
+		if len(m.Calls) < 2 || (!m.Autoname && !m.Dedup) {
+			continue
+		}
+		// flags only act on packages with a clash: two calls sharing a name or a key
+		clash := false
+		for a := range m.Calls {
+			for b := range m.Calls {
+				if a != b && (m.Calls[a].N == m.Calls[b].N || m.Calls[a].K == m.Calls[b].K) {
+					clash = true
+				}
+			}
+		}
+		if !clash {
+			continue
+		}
+		for j := range m.Calls {
+			// v1 = v2 with call j removed / retyped / renamed
+			rm := m
+			rm.Calls = append(append([]CallSpec{}, m.Calls[:j]...), m.Calls[j+1:]...)
+			pairs = append(pairs, pair{rm, m})
+			for _, k := range keys {
+				if k != m.Calls[j].K {
+					v := m
+					v.Calls = append([]CallSpec{}, m.Calls...)
+					v.Calls[j].K = k
+					pairs = append(pairs, pair{v, m})
+				}
+			}
+			for _, sx := range sfx {
+				n := "deriveEqual" + sx
+				if n != m.Calls[j].N {
+					ok := true
+					for _, r := range m.Resv {
+						ok = ok && r != n
+					}
+					if ok {
+						v := m
+						v.Calls = append([]CallSpec{}, m.Calls...)
+						v.Calls[j].N = n
+						pairs = append(pairs, pair{v, m})
+					}
+				}
+			}
+		}
+	}
+	c.Set("flagged_history_pairs_in_universe", len(pairs))
+	rng.Shuffle(len(pairs), func(a, b int) { pairs[a], pairs[b] = pairs[b], pairs[a] })
+	if len(pairs) > nPairs {
+		pairs = pairs[:nPairs]
+	}
+	type result struct {
+		lines [][]byte
+		desc  string
+		size  int
+	}
+	results := make([]*result, len(pairs))
+	var wg sync.WaitGroup
+	var mu sync.Mutex
+	var firstErr error
+	jobs := make(chan int, len(pairs))
+	for i := range pairs {
+		jobs <- i
+	}
+	close(jobs)
+	for w := 0; w < 16; w++ {
+		wg.Add(1)
+		go func(w int) {
+			defer wg.Done()
+			for i := range jobs {
+				p := pairs[i]
+				s1 := buildPkg("v1", p.v1, 1, 0)
+				s2 := buildPkg("v2", p.v2, 1, 0)
+				root := filepath.Join(c.Work, "flagged", fmt.Sprintf("w%d", w))
+				os.RemoveAll(root)
+				dirR, dirS := filepath.Join(root, "r"), filepath.Join(root, "s")
+				fail := func(err error) {
+					mu.Lock()
+					if firstErr == nil {
+						firstErr = err
+					}
+					mu.Unlock()
+				}
+				if err := writeFiles(dirR, s1.Files); err != nil {
+					fail(err)
+					return
+				}
+				args := append(append([]string{}, s2.Flags...), ".")
+				if _, err := gd.Run(c, bin, filepath.Join(dirR, "p"), args, "", 0); err != nil {
+					fail(err)
+					return
+				}
+				// the edit: v2's user files replace v1's (a file v2 no longer has is removed)
+				for f := range s1.Files {
+					if _, ok := s2.Files[f]; !ok {
+						os.Remove(filepath.Join(dirR, f))
+					}
+				}
+				if err := writeFiles(dirR, s2.Files); err != nil {
+					fail(err)
+					return
+				}
+				if err := writeFiles(dirS, s2.Files); err != nil {
+					fail(err)
+					return
+				}
+				trace := filepath.Join(root, "trace.ndjson")
+				r2, err := gd.Run(c, bin, filepath.Join(dirR, "p"), args, trace, 0)
+				if err != nil {
+					fail(err)
+					return
+				}
+				rs, err := gd.Run(c, bin, filepath.Join(dirS, "p"), args, "", 0)
+				if err != nil {
+					fail(err)
+					return
+				}
+				snapR, _ := Snapshot(filepath.Join(dirR, "p"))
+				snapS, _ := Snapshot(filepath.Join(dirS, "p"))
+				_, errR := os.Stat(filepath.Join(dirR, "p", "derived.gen.go"))
+				_, errS := os.Stat(filepath.Join(dirS, "p", "derived.gen.go"))
+				same := len(DiffSnap(snapR, snapS)) == 0
+				shaR, shaS := "same", "same"
+				if !same {
+					shaR, shaS = "r:"+strings.Join(DiffSnap(snapR, snapS), ","), "s"
+				}
+				compress(r2.Events)
+				id := fmt.Sprintf("c07f-%05d", i)
+				var lines [][]byte
+				lines = append(lines, runStartLine(&Scenario{ID: id, Autoname: p.v2.Autoname, Dedup: p.v2.Dedup}))
+				for _, e := range r2.Events {
+					lines = append(lines, marshal(e))
+				}
+				lines = append(lines, marshal(map[string]interface{}{"ev": "RegenObs", "exitR": r2.Exit, "exitS": rs.Exit, "existsR": errR == nil, "existsS": errS == nil,
+					"shaR": shaR, "shaS": shaS, "typechecksR": true, "scratchTypechecks": false, "callsRemain": true, "offset": -1}))
+				results[i] = &result{lines: lines, size: len(p.v1.Calls) + len(p.v2.Calls),
+					desc: fmt.Sprintf("v1=%s -> v2=%s", buildPkg("", p.v1, 1, 0).String(), s2.String())}
+				os.RemoveAll(root)
+			}
+		}(w)
+	}
+	wg.Wait()
+	if firstErr != nil {
+		return 0, 0, firstErr
+	}
+	var outs []*RunOut
+	byID := map[string]*result{}
+	for i, r := range results {
+		id := fmt.Sprintf("c07f-%05d", i)
+		byID[id] = r
+		outs = append(outs, &RunOut{Sc: &Scenario{ID: id}, Lines: r.lines})
+	}
+	st, err := ValidateTraces(c, outs)
+	if err != nil {
+		return 0, 0, err
+	}
+	best := map[string]*result{}
+	for run, whys := range FirstBad(st) {
+		r := byID[run]
+		for _, why := range whys {
+			if !strings.Contains(why, "C07") {
+				continue
+			}
+			if b := best[why]; b == nil || r.size < b.size || (r.size == b.size && r.desc < b.desc) {
+				best[why] = r
+			}
+		}
+	}
+	for why, r := range best {
+		c.Report(why+" :: flagged history "+r.desc, "smallest failing flagged history of this run", map[string]interface{}{"history": r.desc})
+	}
+	return len(results), res.Distinct, nil
 }
